@@ -61,7 +61,7 @@ type bufLine struct {
 }
 
 func init() {
-	for _, p := range []string{"app", "app-guard", "app-engine", "app-proposal", "app-det", "app-malformed", "app-export", "app-export-tax"} {
+	for _, p := range []string{"app", "app-guard", "app-engine", "app-proposal", "app-det", "app-malformed", "app-export", "app-export-tax", "app-export-dupkey", "app-proposal-shared"} {
 		p := p
 		streams[p] = func(seed uint64) Stream { return &appStream{worldStream: newWorldStream("goat-app-1"), profile: p} }
 	}
@@ -102,10 +102,29 @@ func (s *appStream) boot(r *tr.Rng) {
 	if maxv < nval {
 		maxv = nval // a genesis whose active set exceeds MaxValidators is not a state the chain can reach
 	}
-	cfg := appsim.Config{ChainID: s.chain, Seed: seed, NumVoters: nv, NumValidators: nval,
+	shared := s.profile == "app-proposal-shared"
+	if shared {
+		nv = 0 // the proposer stays the proposer: no election can replace it
+	}
+	cfg := appsim.Config{ChainID: s.chain, Seed: seed, NumVoters: nv, NumValidators: nval, ShareProposerKey: shared,
 		MaxValidators: int64(maxv), ElectingPeriod: time.Duration(tr.Pick(r, 30, 60, 600)) * time.Second,
 		AcceptProposerTimeout: time.Duration(tr.Pick(r, 0, 10, 20)) * time.Second, BlockInterval: 5 * time.Second,
 		MempoolMaxTxs: -1, PruneEverything: true, RewardRemain: big.NewInt(1e18)}
+	// short signing windows, jail and unlock periods so that downtime jailing, re-activation and unlock maturity
+	// happen within the histories the streams can afford (the module defaults need thousands of blocks)
+	win := int64(tr.Pick(r, 4, 6, 10, 1200))
+	maxMissed := int64(tr.Pick(r, 1, 2, 3))
+	if win == 1200 {
+		maxMissed = 200
+	}
+	jail := time.Duration(tr.Pick(r, 60, 90, 10800)) * time.Second
+	unlockD := time.Duration(tr.Pick(r, 20, 120, 604800)) * time.Second
+	exitD := unlockD + time.Duration(tr.Pick(r, 0, 60, 1209600))*time.Second
+	halving := int64(tr.Pick(r, 7, 50, 42048000))
+	cfg.LockingParams = func(p *lockingtypes.Params) {
+		p.SignedBlocksWindow, p.MaxMissedPerWindow, p.DowntimeJailDuration = win, maxMissed, jail
+		p.UnlockDuration, p.ExitingDuration, p.HalvingInterval = unlockD, exitD, halving
+	}
 	sim, err := appsim.New(cfg)
 	if err != nil {
 		panic(err)
@@ -129,9 +148,9 @@ func (s *appStream) boot(r *tr.Rng) {
 	}
 	priv, pub := btcec.PrivKeyFromBytes(sim.BtcKey.Key)
 	bk := &keys.BtcKey{Kind: "0", Pub: pub.SerializeCompressed(), Priv: priv}
-	s.rel = &relayerStream{worldStream: s.worldStream, btcKey: bk}
+	s.rel = &relayerStream{worldStream: s.worldStream, btcKey: bk, dupKeyHash: s.profile == "app-export-dupkey"}
 	s.rel.k = 1
-	s.btc = &bitcoinStream{worldStream: s.worldStream, net: &chaincfg.RegressionNetParams, blocks: map[uint64]*btcBlock{}, wds: map[uint64]*wd{}, nextWid: 1, genesisValidTax: s.profile == "app-export", taxBias: s.profile == "app-export-tax",
+	s.btc = &bitcoinStream{worldStream: s.worldStream, net: &chaincfg.RegressionNetParams, blocks: map[uint64]*btcBlock{}, wds: map[uint64]*wd{}, nextWid: 1, genesisValidTax: s.profile == "app-export" || s.profile == "app-export-dupkey", taxBias: s.profile == "app-export-tax",
 		keys: []*keys.BtcKey{bk}, unreg: keys.NewBtcKey(r, "0")}
 	s.btc.k = 1
 	for i := 0; i < 4; i++ {
@@ -462,6 +481,9 @@ func (s *appStream) genBlock(r *tr.Rng) {
 	if s.profile == "app-guard" {
 		nTx = 2 + r.Intn(3)
 	}
+	if s.profile == "app-proposal-shared" {
+		nTx = 0 // one account signs both kinds of message here: keep its sequence for the execution-block message
+	}
 	for tries := 0; tries < 40 && len(txOps) < nTx; tries++ {
 		var o *tr.Op
 		if r.Chance(55) {
@@ -537,7 +559,7 @@ func (s *appStream) genBlock(r *tr.Rng) {
 	// ---- votes and evidence
 	var absent [][]byte
 	for i, val := range sim.Validators {
-		if i > 0 && r.Chance(6) {
+		if i > 0 && (r.Chance(6) || (strings.HasPrefix(s.profile, "app-export") && i == len(sim.Validators)-1 && (s.blocks/7)%2 == 0)) {
 			absent = append(absent, val.ConsAddr)
 		}
 	}
@@ -593,13 +615,18 @@ func (s *appStream) genBlock(r *tr.Rng) {
 	}
 	eb, _ := sim.DecodeEthBlockTx(txs[0])
 	ethCls := ""
+	ethTimeout := uint64(height)
 	malformed := s.profile == "app-malformed"
-	if malformed || r.Chance(4) {
+	if malformed || r.Chance(4) || (s.profile == "app-guard" && r.Chance(25)) {
 		// a defective execution-block message in the finalised block (C06: it consumes nothing; C19: it
 		// is an error, never a crash)
 		m := clonePayload(eb.Payload)
 		var mp *goatmod.ExecutionPayload = m
-		switch r.Intn(pick(malformed, 14, 30)) {
+		sel := r.Intn(pick(malformed, 16, 30))
+		if s.profile == "app-guard" && r.Chance(50) {
+			sel = 11 + r.Intn(2) // the guard's timeout-height rule for the execution-block message
+		}
+		switch sel {
 		case 0:
 			ethCls, m.ExtraData = "/short-extra", m.ExtraData[:32]
 		case 1:
@@ -626,10 +653,22 @@ func (s *appStream) genBlock(r *tr.Rng) {
 			ethCls, m.FeeRecipient = "/wrong-fee-recipient", flip(m.FeeRecipient)
 		case 10:
 			ethCls, m.Requests = "/no-requests", nil
+		case 13, 14: // the system transactions cut short from the end (count byte adjusted, or not)
+			if n := len(m.Transactions); n > 0 {
+				k := 1 + r.Intn(n)
+				ethCls, m.Transactions = "/systx-truncated", m.Transactions[:n-k]
+				if sel == 13 {
+					m.ExtraData[0] = byte(n - k)
+				}
+			}
+		case 11: // the execution-block message is admissible only with timeout height == block height
+			ethCls, ethTimeout = "/timeout-unset", 0
+		case 12:
+			ethCls, ethTimeout = "/timeout-next-height", uint64(height)+1
 		}
 		if ethCls != "" {
 			raw, err := sim.SignTx(sim.Validators[proposerIdx].Priv, []sdk.Msg{&goatmod.MsgNewEthBlock{Proposer: sim.Validators[proposerIdx].AddrStr, Payload: mp}},
-				appsim.TxOpts{GasLimit: 1e8, TimeoutHeight: uint64(height)})
+				appsim.TxOpts{GasLimit: 1e8, TimeoutHeight: ethTimeout})
 			if err == nil {
 				txs[0] = raw
 				eb.Payload = mp
@@ -656,8 +695,8 @@ func (s *appStream) genBlock(r *tr.Rng) {
 		}
 		ptxs = append(ptxs, rawTxs...)
 	}
-	if (s.profile == "app-proposal" || r.Chance(10)) && eb.Payload != nil && len(rawTxs) == 0 {
-		s.genProcess(r, proposerIdx, txs[0], ptxs, eb.Payload, ethCls == "")
+	if (strings.HasPrefix(s.profile, "app-proposal") || r.Chance(10)) && eb.Payload != nil && len(rawTxs) == 0 {
+		s.genProcess(r, proposerIdx, txs[0], ptxs, eb.Payload, ethCls == "", ethTimeout == uint64(height))
 	}
 	// faults hit the two calls `Finalized` makes (DirectBuild does not consult faults)
 	if newStatus != "VALID" {
@@ -731,7 +770,7 @@ func (s *appStream) genBlock(r *tr.Rng) {
 	}
 	// the execution-block message
 	pl := eb.Payload
-	eo := tr.NewOp("ethblock", "tx.ethblock", "ante", "finalize", "signer", sdk.AccAddress(proposer).String(), "signers", 1, "memo", 0, "timeout", height, "height", height,
+	eo := tr.NewOp("ethblock", "tx.ethblock", "ante", "finalize", "signer", sdk.AccAddress(proposer).String(), "signers", 1, "memo", 0, "timeout", ethTimeout, "height", height,
 		"sigok", "1", "seqok", "1", "time", s.now, "proposer", tr.Hex(proposer), "comet", tr.Hex(proposer), "headerhash", tr.Hex(sim.BlockHash(height)))
 	var bridge goattypes.BridgeRequests
 	var relayer goattypes.RelayerRequests
@@ -868,7 +907,7 @@ func flip(b []byte) []byte {
 
 // genProcess: ProcessProposal on the honest proposal (ante-valid transactions only, as the real
 // PrepareProposal selects them) and on single mutations of it.
-func (s *appStream) genProcess(r *tr.Rng, proposerIdx int, ethTx []byte, ptxs []*pendingTx, pl *goatmod.ExecutionPayload, baseHonest bool) {
+func (s *appStream) genProcess(r *tr.Rng, proposerIdx int, ethTx []byte, ptxs []*pendingTx, pl *goatmod.ExecutionPayload, baseHonest bool, ethAnteOk bool) {
 	sim := s.sim
 	s.processed = true
 	height := sim.Height + 1
@@ -888,9 +927,21 @@ func (s *appStream) genProcess(r *tr.Rng, proposerIdx int, ethTx []byte, ptxs []
 			}
 			sim.Engine.InjectFault(f)
 		}
+		callsBefore := len(sim.Engine.Calls())
 		acc, err := sim.Process(comet, txs)
 		if !acc {
-			time.Sleep(2 * time.Millisecond) // a rejection cancels the in-flight newPayload RPC: let it land
+			// a rejection cancels the in-flight newPayload RPC of the sibling verification goroutine: let it land
+			// before anything else talks to the engine (otherwise it shows up in a later block's call log)
+			reason := world.Classify(fmt.Errorf("%s", sim.RejectReason()))
+			switch reason {
+			case "tx-root", "tx-length", "tx-mismatch", "bridge-tx-mismatch", "locking-tx-mismatch", "goat-tx-count":
+				for w := 0; w < 150 && len(sim.Engine.Calls()) == callsBefore; w++ {
+					time.Sleep(2 * time.Millisecond)
+				}
+				time.Sleep(time.Millisecond)
+			default:
+				time.Sleep(2 * time.Millisecond)
+			}
 		}
 		sim.Engine.ClearFaults()
 		honest := cls == "honest" && baseHonest // a deliberately defective execution-block message is not an honest build
@@ -915,7 +966,7 @@ func (s *appStream) genProcess(r *tr.Rng, proposerIdx int, ethTx []byte, ptxs []
 		s.emit(o, res)
 	}
 	kindsOf := func(n int) ([]string, []string) {
-		k, a := []string{"eth"}, []string{"1"}
+		k, a := []string{"eth"}, []string{tr.B(ethAnteOk)}
 		for i := 0; i < n; i++ {
 			k, a = append(k, "rel"), append(a, "1")
 		}
@@ -936,7 +987,8 @@ func (s *appStream) genProcess(r *tr.Rng, proposerIdx int, ethTx []byte, ptxs []
 		cls, comet, msgProp, status, future := "", val.ConsAddr, []byte(val.ConsAddr), "VALID", false
 		txs, k, a := honest, hk, ha
 		mutatePayload := true
-		switch r.Intn(20) {
+		sel := r.Intn(22)
+		switch sel {
 		case 0:
 			cls, m.ParentHash = "wrong-parent", flip(m.ParentHash)
 		case 1:
@@ -1018,14 +1070,49 @@ func (s *appStream) genProcess(r *tr.Rng, proposerIdx int, ethTx []byte, ptxs []
 			}
 		case 19:
 			cls, m.BlobGasUsed = "blob-gas", 1
+		case 20, 21:
+			if n := len(m.Transactions); n > 0 {
+				k := 1 + r.Intn(n)
+				cls, m.Transactions = "systx-truncated", m.Transactions[:n-k]
+				if sel == 20 {
+					m.ExtraData[0] = byte(n - k)
+				}
+			}
 		}
 		if cls == "" {
 			continue
 		}
 		if mutatePayload {
 			txs = append([][]byte{resign(m, val)}, rel...)
+			a = append([]string{"1"}, a[1:]...) // re-signed with the right timeout height
 		}
 		run(cls, comet, txs, k, a, m, msgProp, status, future)
+	}
+	// a second execution-block message hidden behind a relayer message inside a later transaction.  It can
+	// pass the ante chain only when one account is both the consensus proposer and the relayer proposer.
+	if s.profile == "app-proposal-shared" && proposerIdx == 0 && baseHonest {
+		rv := s.rel.view()
+		if rv.rel.Proposer == val.AddrStr {
+			acc := sim.App.AccountKeeper.GetAccount(sim.ReadCtx(), sdk.AccAddress(val.ConsAddr))
+			if acc != nil {
+				seq := acc.GetSequence() + 1
+				second := clonePayload(pl)
+				second.BlockNumber++
+				accept := &relayertypes.MsgAcceptProposerRequest{Proposer: val.AddrStr, Epoch: rv.rel.Epoch}
+				for _, order := range []string{"relayer-msg-first", "ethblock-first"} {
+					msgs := []sdk.Msg{accept, &goatmod.MsgNewEthBlock{Proposer: val.AddrStr, Payload: second}}
+					kind := "eth+"
+					if order == "ethblock-first" {
+						msgs[0], msgs[1] = msgs[1], msgs[0]
+					}
+					raw, err := sim.SignTx(val.Priv, msgs, appsim.TxOpts{GasLimit: 1e8, TimeoutHeight: uint64(height), SeqOverride: &seq})
+					if err != nil {
+						continue
+					}
+					run("hidden-second-ethblock/"+order, val.ConsAddr, [][]byte{ethTx, raw}, []string{"eth", kind}, []string{"1", "1"}, pl, val.ConsAddr, "VALID", false)
+				}
+			}
+		}
 	}
 }
 
